@@ -56,18 +56,20 @@ def _tier(tier):
 
 # ------------------------------------------------------------------------------------------------
 def _model_part(pid, cfg):
-    """Model verdict + vacuity guard. Returns dict of measured numbers."""
-    res = {}
+    """Model verdict: the clauses hold on every behaviour of the bounded adapter model."""
     r = vlib.tlc("MC_Stream", cfg["mc"], pid, workers=8, timeout=cfg["mc_timeout"], coverage=False)
     if r.violated or not r.finished:
         vlib.log(r.out[-3000:])
         raise vlib.ToolError(f"the adapter model violates its own property ({r.violated}): the model is wrong, no verdict")
-    res["mc"] = r
-    rc = vlib.tlc("MC_Stream", cfg["mc_cov"], pid, workers=8, timeout=cfg["mc_timeout"], coverage=True)
+    return r
+
+
+def _cov_part(pid, cfg):
+    """The same model with -coverage 1 (per-action counts; slower, hence a shorter bound)."""
+    rc = vlib.tlc("MC_Stream", cfg["mc_cov"], pid, workers=6, timeout=cfg["mc_timeout"], coverage=True)
     if rc.violated or not rc.finished:
         raise vlib.ToolError("coverage run of the adapter model failed")
-    res["cov"] = rc
-    return res
+    return rc
 
 
 def _bug_part(pid):
@@ -144,9 +146,51 @@ def _key(rec, l, clauses):
     return f"{st['name']}:{what}:{primary}"
 
 
+def _inputs(rec):
+    return [{k: o[k] for k in ("op", "dir", "cap", "pre", "ub", "lens", "inj")} for o in rec["ops"][:rec["nin"]]]
+
+
+CHUNK_OPS = 160000
+
+
 def _monitor(pid, trace, nseq, nops, verdict, label):
-    """Strict monitor run; on violation: screen, group by key, confirm each key with the INVARIANTs.
+    """Strict monitor over the whole trace (in chunks of <= CHUNK_OPS recorded ops, one TLC run each).
     Returns (n_violating_steps, drift list)."""
+    d = vlib.outdir(pid)
+    chunks = []
+    cur, cur_ops = [], 0
+    with open(trace) as f:
+        for line in f:
+            if not line.strip():
+                continue
+            n = line.count('"aw":')          # one per recorded op
+            if cur and cur_ops + n > CHUNK_OPS:
+                chunks.append((cur, cur_ops))
+                cur, cur_ops = [], 0
+            cur.append(line)
+            cur_ops += n
+    if cur:
+        chunks.append((cur, cur_ops))
+    if sum(len(c) for c, _ in chunks) != nseq or sum(n for _, n in chunks) != nops:
+        raise vlib.ToolError("trace chunking lost records")
+    nbad, drift = 0, []
+    for ci, (lines, n) in enumerate(chunks):
+        if len(chunks) == 1:
+            path = trace
+        else:
+            path = os.path.join(d, f"{label}-chunk{ci}.ndjson")
+            with open(path, "w") as f:
+                f.writelines(lines)
+        b, dr = _monitor_chunk(pid, path, len(lines), n, verdict, f"{label}{ci}")
+        nbad += b
+        drift += dr
+        if len(chunks) > 1:
+            os.remove(path)
+    return nbad, drift
+
+
+def _monitor_chunk(pid, trace, nseq, nops, verdict, label):
+    """Strict monitor run; on violation: screen, group by key, confirm each key with the INVARIANTs."""
     r = vlib.tlc("StreamObs", "StreamObs.cfg", pid, workers=8, timeout=2400, env={"TRACE": os.path.abspath(trace)}, xmx="10g")
     drift = r.printed("DRIFT")
     if r.violated is None:
@@ -192,12 +236,13 @@ def _monitor(pid, trace, nseq, nops, verdict, label):
         if not inv:
             raise vlib.ToolError(f"screened class {key} not confirmed by the invariants")
         o = rec["ops"][b["l"] - 1] if 1 <= b["l"] <= len(rec["ops"]) else None
-        desc = (f"{'/'.join(sorted(set(inv)))} false on {rec['stack']['name']} (p={rec['stack']['p']}, ivec={rec['stack']['ivec']}) at op "
-                f"{b['l']} of sequence {rec['id']} [{rec['src']}]: clauses {sorted(b['bad'])}; "
+        desc = (f"clauses {sorted(b['bad'])} false at op {b['l']} of sequence {rec['id']} [{rec['src']}] on {rec['stack']['name']} "
+                f"(p={rec['stack']['p']}, ivec={rec['stack']['ivec']}, B={rec['stack']['B']}); invariants TLC reports violated on this "
+                f"sequence: {sorted(set(inv))}; "
                 f"{len(lst)} violating step(s) in this class; observation: "
                 + (json.dumps({k: o[k] for k in ('op', 'cap', 'pre', 'lens', 'inj', 'res', 'kind', 'n', 'filled', 'buf', 'igave', 'igot', 'icalls', 'woken')})
                    if o else "end of sequence (EOF not reached or delivered # written)"))
-        verdict.violation(key, desc, {"stack": rec["stack"], "ops": rec["inputs"], "src": rec["src"], "failing_op": b["l"],
+        verdict.violation(key, desc, {"stack": rec["stack"], "ops": _inputs(rec), "src": rec["src"], "failing_op": b["l"],
                                       "clauses": sorted(b["bad"]), "invariants": sorted(set(inv)), "observed": rec["ops"]})
     return len(bads), drift
 
@@ -237,14 +282,15 @@ def run(pid, tier, seed, t0):
     vlib.build_harness("stream")
     with concurrent.futures.ThreadPoolExecutor(max_workers=3) as ex:
         f_model = ex.submit(_model_part, pid, cfg)
+        f_cov = ex.submit(_cov_part, pid, cfg)
         f_bugs = ex.submit(_bug_part, pid)
         seqs, gen_counts = _generate(pid, cfg, seed)
         trace, summ = _execute(pid, seqs, cfg["rust_rand"], cfg["maxlen"], seed, "run")
         st = _stats(trace)
         nbad, drift = _monitor(pid, trace, st["nseq"], st["nops"], verdict, "run")
-        model = f_model.result()
+        mc = f_model.result()
+        cov = f_cov.result()
         bugs = f_bugs.result()
-    mc, cov = model["mc"], model["cov"]
     actions = {a: {"distinct": v[0], "taken": v[1]} for a, v in cov.coverage().items()
                if a in ("Init", "Read", "Write", "WriteV", "Flush", "Shutdown")}
     never = [a for a in ("Read", "Write", "WriteV", "Flush", "Shutdown") if actions.get(a, {}).get("taken", 0) == 0]
